@@ -173,6 +173,7 @@ class C17(Prop):
         "p:untrained", "p:nopeptide", "p:recalled", "p:recalled-escalated", "p:recall-blocked-anergic", "p:recall-blocked-inside", "p:tcell",
         "p:none", "p:suspicious", "p:confirmed", "p:critical", "p:anergic", "p:s2-cross", "p:stored",
         "p:stored-pruned", "p:cond-raised", "d:peptide", "d:short", "d:evicted", "d:canary",
+        "d:canary-by-hand", "d:set-window", "d:set-min", "d:obs-by-hand",
         "m:pruned-old", "m:prune-kept", "m:imported", "m:import-full", "m:reimport", "m:roundtrip",
         "m:forgot", "m:forgot-nothing", "m:recall-hit", "m:recall-miss", "d:cleared",
         "e:sysdef", "e:shadow", "e:sset", "e:rreg", "e:creg", "e:cexec", "e:cexec-failed", "e:cexec-unregistered", "e:unregistered", "k:health", "k:cell", "k:stats", "k:export", "k:repr", "k:agents", "k:tpeek",
@@ -833,6 +834,43 @@ class C17(Prop):
                     else:
                         d.clear()
                         o = f"ok n={len(d.observations)}"
+                elif op == "dcan" and len(t) == 3 and t[2] in ("a1", "a0", "clear", "assign", "keep1", "pop0"):
+                    # the public list `display.canary_results` touched by hand (not through record_canary_result)
+                    d = ims().displays.get(f"a{int(t[1])}")
+                    if not isinstance(d, self.DISP.MHCDisplay):
+                        o = "no-display"
+                    else:
+                        if t[2] in ("a1", "a0"):
+                            d.canary_results.append(t[2] == "a1")
+                        elif t[2] == "clear":
+                            d.canary_results.clear()
+                        elif t[2] == "assign":
+                            d.canary_results = []
+                        elif t[2] == "keep1":
+                            d.canary_results = d.canary_results[-1:]
+                        elif d.canary_results:
+                            d.canary_results.pop(0)
+                        o = f"ok c={len(d.canary_results)}"
+                elif op == "dset" and len(t) == 4 and t[2] in ("window", "min"):
+                    d = ims().displays.get(f"a{int(t[1])}")
+                    if not isinstance(d, self.DISP.MHCDisplay):
+                        o = "no-display"
+                    else:
+                        setattr(d, "window_size" if t[2] == "window" else "min_observations", int(t[3]))
+                        o = "ok"
+                elif op == "dobs" and len(t) == 6 and t[2] in ("pop0", "dellast", "dup"):
+                    d = ims().displays.get(f"a{int(t[1])}")
+                    if not isinstance(d, self.DISP.MHCDisplay):
+                        o = "no-display"
+                    else:
+                        if t[2] == "pop0":
+                            if d.observations:
+                                d.observations.pop(0)
+                        elif t[2] == "dellast":
+                            d.observations = d.observations[:-1]
+                        elif d.observations:
+                            d.observations.append(_copy.copy(d.observations[-1]))
+                        o = f"ok n={len(d.observations)}"
                 elif op == "mrecall" and len(t) == 4:
                     q = self.MEM.ThreatSignature(agent_id=f"a{int(t[1])}", vocabulary_hash=f"v{int(t[2])}",
                                                  structure_hash=f"s{int(t[3])}", violation_types=(),
@@ -1001,7 +1039,7 @@ class C17(Prop):
                 f = o.split()
                 supp, orig, mod = f[0] == "1", f[1], f[2]
                 out += self._treg_clauses(idx, ex["level"], ex["action"], supp, orig, mod, by_rule=not ex["shortcut"])
-            elif op in ("reg", "show", "dreg", "obs", "canary", "dclear", "rreg", "creg", "cexec"):
+            elif op in ("reg", "show", "dreg", "obs", "canary", "dclear", "rreg", "creg", "cexec", "dcan", "dobs"):
                 if o.startswith("ok") and len(t) > 1:
                     fresh_trained[int(t[1])] = False
             elif op == "train" and ex:
@@ -1807,9 +1845,42 @@ class C17(Prop):
                 lines.append(f"presetfa {a}")
             elif x < 0.92:
                 lines.append(f"preset {a}")
-            elif x < 0.95 and mo >= 1:
+            elif x < 0.94 and mo >= 1:
                 del win[:], canaries[:]
                 lines.append(f"dclear {a}")
+                emit_inspect()
+            elif x < 0.955:
+                # the display's public configuration assigned after construction
+                if rng.random() < 0.5:
+                    ws = rng.choice([max(len(win) - 1, 1), len(win), len(win) + 2, 3, 20])
+                    lines.append(f"dset {a} window {ws}")
+                else:
+                    mo = rng.choice([1, 3, max(len(win), 1), len(win) + 1])
+                    lines.append(f"dset {a} min {mo}")
+                emit_inspect()
+            elif x < 0.975:
+                # the public lists of the display touched by hand
+                if rng.random() < 0.5 or not win:
+                    how = rng.choice(["a1", "a0", "clear", "assign", "keep1", "pop0"])
+                    if how in ("a1", "a0"):
+                        canaries.append(how == "a1")
+                    elif how in ("clear", "assign"):
+                        del canaries[:]
+                    elif how == "keep1":
+                        del canaries[:-1]
+                    elif canaries:
+                        canaries.pop(0)
+                    lines.append(f"dcan {a} {how}")
+                else:
+                    how = rng.choice(["pop0", "dellast", "dup"])
+                    if how == "pop0":
+                        win.pop(0)
+                    elif how == "dellast":
+                        win.pop()
+                    else:
+                        win.append(win[-1])
+                    sds = (sdev([o[0] for o in win]), sdev([o[1] for o in win]), sdev([o[2] for o in win]))
+                    lines.append(f"dobs {a} {how} " + " ".join(show_rat(x) for x in sds))
                 emit_inspect()
             else:
                 emit_train()
@@ -1917,6 +1988,122 @@ class C17(Prop):
             lines += ["pinspect 0"]
         return {"lines": lines, "note": "real display, full window, behaviour changes while full"}
 
+    def case_display_canary(self, rng):
+        """the canary record moves while the observation window stands still: trained with some canary accuracy, probes
+        start failing (accuracy below the trained minimum), inspections, then probes pass again until the accuracy is
+        back above the minimum — with NO observation recorded in between (optionally one, a read-only poll, a reset, a
+        flag); several swings.  What is judged is the behaviour the agent shows at the moment of each inspection."""
+        mn = rng.choice([10, 3, 1])
+        tol = rng.choice([F(2), F(2), F(1), F(0)])
+        rules = [f"{rng.choice(LEVELS)}:{rng.choice(CONDS[:-1])}" for _ in range(rng.choice([0, 0, 0, 1]))]
+        lines = [" ".join(["sys", str(mn), show_rat(tol), "1/2", str(rng.choice([100, 100, 2])), str(rng.choice([1000, 2]))]
+                          + rules)]
+        a = rng.choice([0, 1])
+        ws, mo = rng.choice([(20, 10), (6, 3), (3, 1), (100, 10), (5, 5)])
+        entry = rng.choice(["dreg", "dreg", "rreg", "creg"])
+        if entry != "dreg":
+            if rng.random() < 0.5:
+                lines, mn, tol = ["sysdef"], 10, F(2)
+            if (ws, mo) != (100, 10):
+                lines.append(f"sysw {ws} {mo}")
+            lines.append(f"{entry} {a}")
+        else:
+            lines.append(f"dreg {a} {ws} {mo}")
+        sc = pick_scale(rng)
+        words = rng.sample(range(8), 2)
+        tm, cf = F(rng.choice([2, 4]), 4) * sc[3], F(rng.choice([48, 56]), 64) * sc[1] + sc[2]
+        text = render("text", S_PLAIN, words)
+
+        def obs():
+            # identical observations: every standard deviation of the window is 0
+            lines.append(" ".join(["obs", str(a), "text", str(S_PLAIN), set_tok(words), str(len(text)), show_rat(tm),
+                                   show_rat(cf), "-", "0", "0", "0"]))
+        for _ in range(rng.choice([mo, mo, mo + 1, ws])):
+            obs()
+        can = []
+
+        def canary(b):
+            can.append(b)
+            how = "canary" if entry == "x" or rng.random() < 0.8 else "dcan"
+            lines.append(f"canary {a} {show_bool(b)}" if how == "canary" else f"dcan {a} {'a1' if b else 'a0'}")
+
+        def acc():
+            return F(sum(can), len(can)) if can else None
+        # the canary record the agent is trained with: all passing / a mixed record / none at all / all failing
+        p0, f0 = rng.choice([(1, 0), (1, 0), (2, 0), (10, 0), (1, 1), (3, 1), (2, 2), (0, 0), (0, 1)])
+        pre = [True] * p0 + [False] * f0
+        rng.shuffle(pre)
+        for b in pre:
+            canary(b)
+        lines.append(f"train {a}")
+        cmin = acc() * F(9, 10) if can else F(0)          # 'the minimum the agent was trained with' (generator's belief)
+        lines.append(f"pinspect {a}")
+
+        def safe():
+            c = acc()
+            return c is None or abs(c - cmin) >= EPS      # an accuracy that sits on the float boundary is not inspected
+
+        def inspect():
+            if not safe():
+                self.skipped_boundary += 1
+                return
+            lines.append(f"pinspect {a}")
+        for _ in range(rng.choice([1, 2, 2, 3])):
+            # probes fail until the accuracy is below the trained minimum (or just once / twice)
+            want = rng.choice(["below", "below", "below", "critical", "one"])
+            for i in range(14):
+                canary(False)
+                c = acc()
+                if want == "one" or (want == "below" and c < cmin - EPS) or (want == "critical" and c < F(1, 2) and c < cmin - EPS):
+                    break
+            x = rng.random()
+            if x < 0.2:
+                lines.append(f"pflag {a} 1")
+            elif x < 0.3:
+                lines += self.polls(rng)
+            for _ in range(rng.choice([1, 1, 2, 3, 4])):
+                inspect()
+            x = rng.random()
+            if x < 0.2:
+                lines.append(rng.choice([f"preset {a}", f"presetfa {a}"]))
+            elif x < 0.3:
+                lines.append("peek agents")
+            # probes pass again: exactly as many as it takes / one fewer / a few more; by the entry point, by hand, or the
+            # operator drops the old results
+            back = rng.choice(["just", "just", "just", "short", "more", "drop"])
+            if back == "drop":
+                how = rng.choice(["clear", "assign", "keep1", "pop0"])
+                lines.append(f"dcan {a} {how}")
+                if how in ("clear", "assign"):
+                    del can[:]
+                elif how == "keep1":
+                    del can[:-1]
+                elif can:
+                    can.pop(0)
+                canary(True)
+            else:
+                for i in range(16):
+                    canary(True)
+                    if acc() > cmin + EPS:
+                        break
+                if back == "short" and len(can) > 1:
+                    can.pop()
+                    lines.pop()
+                if back == "more":
+                    for _ in range(rng.choice([1, 3])):
+                        canary(True)
+            x = rng.random()
+            if x < 0.12:
+                obs()                                       # the usual cycle: an observation arrives before the inspection
+            elif x < 0.2:
+                lines += self.polls(rng)
+            for _ in range(rng.choice([1, 2, 2])):
+                inspect()
+            if rng.random() < 0.25:
+                lines += [f"train {a}", f"pinspect {a}"]
+                cmin = acc() * F(9, 10) if can else F(0)
+        return {"lines": lines, "note": "real display: canary record moves while the observation window stands still"}
+
     def case_malformed(self, rng):
         junk = ["", "inspect", "inspect 1 2 3", "tcell 3 5", "evaluate none", "expire 1", "pruneold", "updated", "reimport 1", "pinspect", "show 0", "train", "frobnicate 1",
                 "ttrain 0 0 0", "treset", "flag 1", "check 1 2 3 4 5 6 7 8 9 none", "sample 1 2"]
@@ -1941,6 +2128,8 @@ class C17(Prop):
                 c = self.case_display(rng)
             elif x < 0.36:
                 c = self.case_pipeline(rng)
+            elif x < 0.40:
+                c = self.case_display_canary(rng)
             elif x < 0.68:
                 c = self.case_tcell(rng)
             elif x < 0.82:
